@@ -220,4 +220,39 @@ Definition grav_allpairs (G : T) (ps : list (Part T)) : list T3 :=
   for_range 0 n (fun i acc =>
     for_range (S i) n (fun j acc => newt_pair G ps i j acc) acc) (repeat t0 n).
 
+(* ------------------------------------------------------------------ 2nd order, vc.testparticle = i >= 0 *)
+(* w = particles_var2[0], a = particles_var1a[0], b = particles_var1b[0] (positions only);
+   for (j=0; j<_N_real; j++) { if (i==j) continue; ... }   no WH skipping, no mass variations *)
+Definition var2_tp_step (G : T) (ps : list (Part T)) (w a b : T3) (i j : nat) (acc : T3) : T3 :=
+  let pi := nth_d Z0P ps i in
+  let pj := nth_d Z0P ps j in
+  let dx := px pi - px pj in
+  let dy := py pi - py pj in
+  let dz := pz pi - pz pj in
+  let r2 := dx * dx + dy * dy + dz * dz in
+  let r := nsqrt N r2 in
+  let r3inv := 1 / (r2 * r) in
+  let r5inv := r3inv / r2 in
+  let r7inv := r5inv / r2 in
+  let '(ddx, ddy, ddz) := w in
+  let Gmj := G * pm pj in
+  let dax0 := ddx * (3 * dx * dx * r5inv - r3inv) + ddy * (3 * dx * dy * r5inv) + ddz * (3 * dx * dz * r5inv) in
+  let day0 := ddx * (3 * dy * dx * r5inv) + ddy * (3 * dy * dy * r5inv - r3inv) + ddz * (3 * dy * dz * r5inv) in
+  let daz0 := ddx * (3 * dz * dx * r5inv) + ddy * (3 * dz * dy * r5inv) + ddz * (3 * dz * dz * r5inv - r3inv) in
+  let '(dk1dx, dk1dy, dk1dz) := a in
+  let '(dk2dx, dk2dy, dk2dz) := b in
+  let rdk1 := dx * dk1dx + dy * dk1dy + dz * dk1dz in
+  let rdk2 := dx * dk2dx + dy * dk2dy + dz * dk2dz in
+  let dk1dk2 := dk1dx * dk2dx + dk1dy * dk2dy + dk1dz * dk2dz in
+  let dax := dax0 + (3 * r5inv * dk2dx * rdk1 + 3 * r5inv * dk1dx * rdk2 + 3 * r5inv * dx * dk1dk2
+                     - 15 * dx * r7inv * rdk1 * rdk2) in
+  let day := day0 + (3 * r5inv * dk2dy * rdk1 + 3 * r5inv * dk1dy * rdk2 + 3 * r5inv * dy * dk1dk2
+                     - 15 * dy * r7inv * rdk1 * rdk2) in
+  let daz := daz0 + (3 * r5inv * dk2dz * rdk1 + 3 * r5inv * dk1dz * rdk2 + 3 * r5inv * dz * dk1dk2
+                     - 15 * dz * r7inv * rdk1 * rdk2) in
+  let '(ax, ay, az) := acc in
+  (ax + Gmj * dax, ay + Gmj * day, az + Gmj * daz).
+Definition grav_var2_tp (G : T) (ps : list (Part T)) (w a b : T3) (i : nat) : T3 :=
+  for_range 0 (length ps) (fun j acc => if Nat.eqb i j then acc else var2_tp_step G ps w a b i j acc) t0.
+
 End GravVar.
